@@ -85,11 +85,17 @@ where
             unreachable!("State should be ObserverState::Created. It was checked at the beggining");
         };
 
+        #[cfg(pearl_verif)]
+        let (sender, receiver) = channel(crate::verif::channel_capacity(OBSERVER_CHANNEL_SIZE_LIMIT));
+        #[cfg(not(pearl_verif))]
         let (sender, receiver) = channel(OBSERVER_CHANNEL_SIZE_LIMIT);  
         let worker = ObserverWorker::new(
             receiver,
             inner
         );
+        #[cfg(pearl_verif)]
+        let handle = crate::verif::spawn("worker", worker.run());
+        #[cfg(not(pearl_verif))]
         let handle = tokio::spawn(worker.run());
 
         self.state = ObserverState::Running(sender, handle);
@@ -153,6 +159,8 @@ where
     async fn send_msg(&self, msg: Msg) {
         if let ObserverState::Running(sender, _) = &self.state {
             let optype = msg.optype.clone();
+            #[cfg(pearl_verif)]
+            crate::verif::point(crate::verif::Label::Send).await;
             if let Err(e) = sender.send(msg).await {
                 error!(
                     "Can't send message to worker:\nOperation: {:?}\nReason: {:?}",
